@@ -1653,7 +1653,8 @@ func (pc *PeerConnection) startRTPReceivers(remoteDesc *SessionDescription, curr
 				Direction: RTPTransceiverDirectionSendrecv,
 			})
 			if err != nil {
-				pc.log.Warnf("Could not add transceiver for remote SSRC %d: %s", incomingTrack.ssrcs[0], err)
+				// a track announced by rid only has no SSRC yet
+				pc.log.Warnf("Could not add transceiver for remote SSRCs %v: %s", incomingTrack.ssrcs, err)
 
 				continue
 			}
